@@ -225,11 +225,14 @@ impl Dag {
         // emit nodes and labels
         s.push_str("// Target nodes\n");
         for n in 0..self.adj_list.len() {
-            s.push_str(&format!(
-                "{} [label=\"{}\"];\n",
-                n,
-                self.get_label_by_node(&n)?
-            ));
+            // a label is a quoted string: a quote, backslash or line break in a target path
+            // must not end it (and start statements of its own)
+            let label = self
+                .get_label_by_node(&n)?
+                .replace('\\', "\\\\")
+                .replace('"', "\\\"")
+                .replace('\n', "\\n");
+            s.push_str(&format!("{} [label=\"{}\"];\n", n, label));
         }
         // emit edges
         s.push_str("// Uses edges\n");
